@@ -154,7 +154,8 @@ def ref_candidates(tgt, coords):
 def ref_check(mode, H, src, tgt, T, exact=True):
     """compare H with the definition; returns a failure text or None"""
     ci, cj = H.shape
-    if np.any(H < 0) or not np.all(np.isfinite(H)):
+    # the subtractive weight algebra can round to -1e-17 on non-dyadic coordinates
+    if np.any(H < (0 if exact else -1e-9)) or not np.all(np.isfinite(H)):
         return "histogram has a negative or non-finite entry"
     exp = np.zeros((ci, cj), dtype=object)
     exp[:] = Fraction(0)
@@ -431,7 +432,7 @@ class C09(PropertyCheck):
             b = [0, 0, 0] if ident else [rng.randrange(-8, 8 * tshape[a]) / 8 for a in range(3)]
             cases.append({"kind": "reg", "shape": shape, "tshape": tshape, "same": same, "ident": ident,
                           "dseed": rng.randrange(10 ** 6), "levels": rng.choice([2, 3, 5, 9, 40]),
-                          "bins": rng.choice([2, 3, 4, 8, 16, 256]),
+                          "bins": rng.choice([2, 3, 4, 8, 16, 24]),
                           "tbins": rng.choice([None, None, 2, 5, 16]),
                           "mask": rng.choice([None, None, "box", "rand"]),
                           "sim": rng.choice(MEASURES), "interp": rng.choice(["pv", "tri", "rand"]),
@@ -474,6 +475,8 @@ class C09(PropertyCheck):
             cases.append({"kind": "clamp", "dtype": dt, "x": x, "bins": bins, "mask": mask})
         for k in range(n_fov):
             shape = [rng.choice([1, 2, 3, 4, 6]) for _ in range(3)]
+            if shape == [1, 1, 1]:
+                shape = [2, 1, 1]       # a one-voxel (constant) image cannot be clamped
             cases.append({"kind": "fov", "shape": shape, "dseed": rng.randrange(10 ** 6),
                           "spacing": [rng.choice([1, 1, 2, 3, 4]) if rng.random() < 0.97 else 0 for _ in range(3)],
                           "corner": [rng.randrange(0, shape[a]) if rng.random() < 0.5 else 0 for a in range(3)],
@@ -638,11 +641,13 @@ class C09(PropertyCheck):
         tags = ["measure", "m=" + name] + (["renorm"] if renorm else [])
         if tb is not None and name in ("cc", "cr", "crl1", "mi", "nmi", "slr"):
             want = tb
+            got = val
             if renorm and name in ("cc", "cr", "crl1"):
-                want = -.5 * H.sum() * math.log(max(1 - tb, TINY))
+                # -n/2*log(1-rho2) is ill-conditioned near rho2 = 1: compare the correlations
+                got = 1 - math.exp(-2 * val / H.sum()) if math.isfinite(val) else val
             elif renorm and name in ("mi", "slr"):
                 want = tb * H.sum()
-            if not close(val, want, 1e-8, 1e-9):
+            if not close(got, want, 1e-8, 1e-9):
                 fail = (f"{name}(renormalize={renorm}) = {val!r} on histogram {H.tolist()} but its textbook "
                         f"formula gives {want!r}")
             tags.append("textbook-checked")
@@ -906,9 +911,13 @@ class C09(PropertyCheck):
         if kind == "corr":
             v, npts = parse_rats(model_out)
             want = float(v)
-            if impl_obs[2]:
-                want = -.5 * float(npts) * math.log(max(1 - float(v), TINY))
             got = impl_obs[1]
+            if impl_obs[2]:
+                # -n/2*log(1-rho2) is ill-conditioned near rho2 = 1: compare the correlations
+                if float(npts) == 0:
+                    want = 0.0
+                elif math.isfinite(got):
+                    got = 1 - math.exp(-2 * got / float(npts))
             if math.isnan(got) and float(v) > 1e300:
                 return None
             return None if close(got, want, 1e-8, 1e-9) else f"impl={got!r} model={want!r}"
@@ -951,18 +960,21 @@ class C09(PropertyCheck):
     def shrink(self, case):
         if case["kind"] == "jh":
             n = len(case["src"])
-            if n > 1:
-                for i in range(n):
-                    c = dict(case)
-                    c["src"] = case["src"][:i] + case["src"][i + 1:]
-                    c["T"] = case["T"][:i] + case["T"][i + 1:]
-                    c["sshape"] = [1, 1, n - 1]
-                    c["style"] = "free" if case["style"] == "identity" else case["style"]
-                    yield c
-            for k, v in enumerate(case["tgt"]):
-                if v > 0:
-                    c = dict(case); c["tgt"] = list(case["tgt"]); c["tgt"][k] = 0
-                    yield c
+
+            def keep(idx):
+                c = dict(case)
+                c["src"] = [case["src"][i] for i in idx]
+                c["T"] = [case["T"][i] for i in idx]
+                c["sshape"] = [1, 1, len(idx)]
+                c["layout"] = "C"
+                c["style"] = "free" if case["style"] == "identity" else case["style"]
+                return c
+            if n > 1:       # halves first, then single removals (few candidates per round)
+                yield keep(list(range(n // 2)))
+                yield keep(list(range(n // 2, n)))
+                if n <= 8:
+                    for i in range(n):
+                        yield keep([j for j in range(n) if j != i])
         elif case["kind"] == "measure":
             H = case["H"]
             if len(H) > 1:
